@@ -690,9 +690,26 @@ class FnTr:
             return True     # (additive) in assert mode a failing assertion is an early exit
         return any(self.can_return(c) for c in n.get('inner', []))
 
+    def can_break(self, n):
+        """(additive) does statement n contain a `break` that belongs to the loop whose body n is part of (nested loops /
+        switches are not entered)?"""
+        if not isinstance(n, dict):
+            return False
+        k = n.get('kind')
+        if k == 'BreakStmt':
+            return True
+        if k in ('ForStmt', 'WhileStmt', 'DoStmt', 'SwitchStmt', 'CXXForRangeStmt'):
+            return False
+        return any(self.can_break(c) for c in n.get('inner', []))
+
+    def can_exit(self, n):
+        return self.can_return(n) or (self.loop_depth > 0 and self.can_break(n))
+
     def falls_through(self, n):
         k = n.get('kind')
         if k == 'ReturnStmt':
+            return False
+        if k == 'BreakStmt':
             return False
         if k == 'CompoundStmt':
             for c in n.get('inner', []):
@@ -786,6 +803,12 @@ class FnTr:
             return k(env)
         if kind == 'NullStmt':
             return k(env)
+        if kind == 'BreakStmt':
+            # (additive) only inside a counted loop translated with a `broke` flag (forstmt): what follows is dropped
+            bk = getattr(self, 'break_k', None)
+            if bk is None:
+                self.bad('break outside a translated loop')
+            return bk(env)
         if kind == 'CompoundStmt':
             return self.stmts(inner, env, k)
         if kind == 'DeclStmt':
@@ -937,10 +960,17 @@ class FnTr:
         if s.get('hasVar') or s.get('hasInit'):
             self.bad('if with declaration')
         c, ct = self.expr(inner[0], env)
+        if isinstance(ct, tuple):
+            # (additive) `if (f(.., out))`: bind the call's results first, then branch on the returned value
+            return self.bind_call(c, ct, env, lambda env2, r, rt: self.ifstmt_c(s, self.to_bool(r, rt), env2, k))
         c = self.to_bool(c, ct)
+        return self.ifstmt_c(s, c, env, k)
+
+    def ifstmt_c(self, s, c, env, k):
+        inner = s['inner']
         then_s = inner[1]
         else_s = inner[2] if len(inner) > 2 else {'kind': 'NullStmt'}
-        if not self.can_return(then_s) and not self.can_return(else_s):
+        if not self.can_exit(then_s) and not self.can_exit(else_s):
             ids = sorted(self.assigned(then_s) | self.assigned(else_s), key=lambda i: self.names.get(i, str(i)))
             ids = [i for i in ids if i in env]
             if not ids:
@@ -1039,6 +1069,24 @@ class FnTr:
         pat, envb = self.bind_tuple(ids, env)
         envb[ivar] = iname
         stv = self.fresh('st')
+        if self.can_break(body):
+            # (additive) loop with `break` (and no return): state = (broke, vars); once broke, the remaining iterations are skipped
+            if canret:
+                self.bad('loop with both break and return')
+            old_bk = getattr(self, 'break_k', None)
+            self.break_k = lambda e: '(true, %s)' % self.tuple_of(ids, e)
+            self.loop_depth += 1
+            try:
+                body_t = self.stmt(body, envb, lambda e: '(false, %s)' % self.tuple_of(ids, e))
+            finally:
+                self.loop_depth -= 1
+                self.break_k = old_bk
+            acc = 'fun (%s : (bool * %s)%%type) (%s : Z) => match %s with\n| (true, _) => %s\n| (false, %s) =>\n%s\nend' % (
+                stv, self.tuple_type(ids), iname, stv, stv, pat.lstrip("'"), body_t)
+            res = self.fresh('loop')
+            pat2, env2 = self.bind_tuple(ids, env)
+            return ('let %s := fold_left (%s) (zseq %s %s) (false, %s) in\nmatch %s with\n| (_, %s) =>\n%s\nend'
+                    % (res, acc, lo, hi, self.tuple_of(ids, env), res, pat2.lstrip("'"), k(env2)))
         if canret:
             saved_ret = self.ret_value
             # inside the body, a return yields (Some r, state)
@@ -1136,6 +1184,118 @@ class FnTr:
         out = 'Definition %s %s : %s :=\n%s.\n' % (self.coqname, ps, rt, term)
         return out, allp, rt
 
+    # ---- (additive) a loop of a function that is otherwise outside the fragment
+    def translate_fragment(self, fs):
+        """fs = {"loop_calling": f, "params": [names], "result": [names]}: the unique innermost counted `for` loop of this
+        function whose body calls f (directly, not inside a nested loop), together with the declarations of the variables the
+        loop assigns.  Those declarations must stand in the SAME block as the loop, before it, with nothing in between
+        assigning them (so `let v := init in fold ...` is what the C++ does on every execution of that block).  The free
+        variables of the slice must be exactly `params` (their types are taken from their declarations); the value is the
+        tuple of the `result` variables after the loop."""
+        d = self.decl
+        body = [c for c in d.get('inner', []) if c.get('kind') == 'CompoundStmt'][0]
+        target = fs['loop_calling']
+
+        def calls_target(n):
+            if not isinstance(n, dict):
+                return False
+            if n.get('kind') in ('ForStmt', 'WhileStmt', 'DoStmt', 'CXXForRangeStmt'):
+                return False
+            if n.get('kind') in ('CallExpr', 'CXXMemberCallExpr') and n.get('inner') and self.callee_name(n['inner'][0]) == target:
+                return True
+            return any(calls_target(c) for c in n.get('inner', []))
+
+        found = []
+
+        def walk(n):
+            if not isinstance(n, dict):
+                return
+            kids = n.get('inner', [])
+            if n.get('kind') == 'CompoundStmt':
+                for i, c in enumerate(kids):
+                    if isinstance(c, dict) and c.get('kind') == 'ForStmt' and len(c.get('inner', [])) == 5 and calls_target(c['inner'][4]):
+                        found.append((n, i, c))
+            for c in kids:
+                walk(c)
+        walk(body)
+        if len(found) != 1:
+            self.bad('%d counted for-loops calling %s (expected exactly one)' % (len(found), target))
+        comp, idx, loop = found[0]
+        asg = self.assigned(loop['inner'][4])
+        # declarations of the loop state
+        decl_at = {}
+        for i, c in enumerate(comp['inner'][:idx]):
+            if c.get('kind') == 'DeclStmt':
+                for v in c.get('inner', []):
+                    if v.get('kind') == 'VarDecl':
+                        decl_at[v['id']] = (i, c, v)
+        state = []
+        for vid in asg:
+            if vid not in decl_at:
+                self.bad('a variable assigned in the loop is not declared in the block of the loop, before the loop')
+            i, ds, v = decl_at[vid]
+            if len(ds['inner']) != 1:
+                self.bad('loop state variable declared in a multi-declaration')
+            for between in comp['inner'][i + 1:idx]:
+                if vid in self.assigned(between):
+                    self.bad('loop state variable %s is assigned between its declaration and the loop' % v['name'])
+            state.append((i, ds, v))
+        state.sort(key=lambda t: t[0])
+        slice_stmts = [ds for (_, ds, _) in state] + [loop]
+        # free variables
+        inside = set()
+
+        def decls(n):
+            if isinstance(n, dict):
+                if n.get('kind') in ('VarDecl',):
+                    inside.add(n['id'])
+                for c in n.get('inner', []):
+                    decls(c)
+        for st in slice_stmts:
+            decls(st)
+        free = {}
+
+        def refs(n):
+            if isinstance(n, dict):
+                if n.get('kind') == 'DeclRefExpr':
+                    r = n['referencedDecl']
+                    if r.get('kind') in ('VarDecl', 'ParmVarDecl') and r['id'] not in inside:
+                        free[r['id']] = r
+                if n.get('kind') == 'CXXThisExpr':
+                    self.bad('the loop uses `this`')
+                for c in n.get('inner', []):
+                    refs(c)
+        for st in slice_stmts:
+            refs(st)
+        want = list(fs['params'])
+        have = sorted(r['name'] for r in free.values())
+        if sorted(want) != have:
+            self.bad('free variables of the loop are %s, the spec expects %s' % (have, sorted(want)))
+        env = {}
+        plist = []
+        byname = {r['name']: r for r in free.values()}
+        for nm in want:
+            r = byname[nm]
+            ty = self.ctx.map_type(r.get('type', {}).get('qualType', ''))
+            cn = self.fresh(nm)
+            env[r['id']] = cn
+            self.vartypes[r['id']] = ty
+            self.names[r['id']] = nm
+            plist.append((cn, ty))
+        res_ids = []
+        for nm in fs['result']:
+            ids = [v['id'] for (_, _, v) in state if v['name'] == nm]
+            if len(ids) != 1:
+                self.bad('result variable %s is not a state variable of the loop' % nm)
+            res_ids.append(ids[0])
+        self.ret_ty = 'unit'
+        self.outs = []
+        term = self.stmts(slice_stmts, env, lambda e: self.tuple_of(res_ids, e))
+        rt = self.tuple_type(res_ids).strip('()') if len(res_ids) == 1 else self.tuple_type(res_ids) + '%type'
+        ps = ' '.join('(%s : %s)' % (n, t) for n, t in plist)
+        out = 'Definition %s %s : %s :=\n%s.\n' % (self.coqname, ps, rt, term)
+        return out, plist, rt, loop, [v['name'] for (_, _, v) in state]
+
 
 def translate_const(ctx, repo, srcfile, name):
     docs = clang_dump(repo, srcfile, name)
@@ -1202,9 +1362,22 @@ def source_text(repo, d, srcfile):
         return f, 0, 0, 'unknown'
 
 
-def run_module(spec, mod, repo, outdir):
+def run_module(spec, mod, repo, outdir, emit=True):
     ctx = Ctx(spec)
     ctx.const_types = {}
+    ext_ok = True
+    # (additive) `extern_modules`: functions / constants of other modules of the spec directory may be called; they are
+    # translated in memory (nothing is written) only to learn their Coq names, types and out-parameters, and the generated
+    # file imports Gen.<Module>
+    for en in mod.get('extern_modules', []):
+        em = [m_ for m_ in spec.get('modules', []) if m_.get('module') == en]
+        if not em:
+            raise SystemExit('cpp2v: extern module %s not found' % en)
+        eok, emeta, ectx = run_module(spec, em[0], repo, outdir, emit=False)
+        ext_ok = ext_ok and eok
+        ctx.funcs.update(ectx.funcs)
+        ctx.consts.update(ectx.consts)
+        ctx.const_types.update(ectx.const_types)
     for k in ('records', 'enum_types', 'opaque_calls', 'skip_stmt_containing'):
         if k in mod:
             setattr(ctx, {'records': 'records', 'enum_types': 'enums', 'opaque_calls': 'opaque',
@@ -1216,19 +1389,23 @@ def run_module(spec, mod, repo, outdir):
     out.append('From Adapt Require Import Num.Qaux.')
     for imp in mod.get('imports', []):
         out.append('From Adapt Require Import %s.' % imp)
+    for en in mod.get('extern_modules', []):
+        out.append('From Adapt Require Import Gen.%s.' % en)
     out.append('Local Open Scope Q_scope.\n')
     if mod.get('prelude'):
         out.append(mod['prelude'])
     meta = []
-    ok = True
+    ok = ext_ok
+    if not ext_ok:
+        meta.append({'name': 'extern modules', 'status': 'unsupported', 'reason': 'a function of %s is outside the fragment' % mod.get('extern_modules')})
     # constants first
     jobs = []
-    names = list(mod.get('constants', [])) + [f['name'] if isinstance(f, dict) else f for f in mod['functions']]
+    names = list(mod.get('constants', [])) + [f['name'] if isinstance(f, dict) else f for f in mod.get('functions', [])]
     files = {}
     for c in mod.get('constants', []):
         files[c] = mod['file']
     fspecs = []
-    for f in mod['functions']:
+    for f in mod.get('functions', []):
         if not isinstance(f, dict):
             f = {'name': f}
         fspecs.append(f)
@@ -1385,6 +1562,35 @@ def run_module(spec, mod, repo, outdir):
             ok = False
             out.append('(* UNSUPPORTED %s: %s *)\n' % (name, e))
             meta.append({'name': name, 'status': 'unsupported', 'reason': str(e)})
+    # (additive) `fragments`: loops sliced out of functions that are otherwise outside the fragment (FnTr.translate_fragment)
+    for fs in mod.get('fragments', []):
+        name = fs['name']
+        cls, short = (name.split('::') + [None])[:2] if '::' in name else (None, name)
+        srcfile = fs.get('file', mod['file'])
+        try:
+            docs = clang_dump(repo, srcfile, short)
+            d = None
+            for cand in docs:
+                if cand.get('kind') in ('FunctionDecl', 'CXXMethodDecl') and cand.get('name') == short and has_body(cand):
+                    d = cand
+            if d is None:
+                raise Unsupported('definition of %s not found in %s' % (name, srcfile))
+            tr = FnTr(ctx, d, fs['coq'], None)
+            txt, plist, rt, loop, state = tr.translate_fragment(fs)
+            srcf, l0, l1, h = source_text(repo, loop, srcfile)
+            if not os.path.isabs(str(srcf)) or not os.path.exists(str(srcf)):
+                srcf = os.path.join(repo, 'cola', srcfile)
+            out.append('(* loop of %s calling %s, with the declarations of its state %s  %s:%d-%d  sha256/16=%s *)'
+                       % (name, fs['loop_calling'], state, srcf, l0, l1, h))
+            out.append(txt)
+            meta.append({'name': name + ' [loop calling %s]' % fs['loop_calling'], 'coq': fs['coq'], 'file': srcf, 'lines': [l0, l1],
+                         'hash': h, 'status': 'ok', 'params': plist, 'ret': rt, 'state': state})
+        except Unsupported as e:
+            ok = False
+            out.append('(* UNSUPPORTED loop of %s: %s *)\n' % (name, e))
+            meta.append({'name': name + ' [loop calling %s]' % fs['loop_calling'], 'status': 'unsupported', 'reason': str(e)})
+    if not emit:
+        return ok, meta, ctx
     path = os.path.join(outdir, mod['module'] + '.v')
     txt = '\n'.join(out) + '\n'
     old = open(path).read() if os.path.exists(path) else None
